@@ -27,7 +27,7 @@ def mk(variants, flagsets, sym_flags=(), edstart='present', pre_op=None, started
          'started': started or [None] * N}
     sym = [('s%d' % i, 'str') for i in range(N)] + [('i0', 'str'), ('c0', 'str'), ('c1', 'str'), ('c2', 'str')]
     strs = ['s%d' % i for i in range(N)]
-    if pre_op:
+    if pre_op and pre_op != 'roreplace':
         sym.append(('n0', 'str'))
         strs.append('n0')
     # story IDs are not required to be unique (roStoryAppend does not de-duplicate): in the 'dup-ids' cells the
@@ -75,6 +75,8 @@ def cells(tier):
     out.append(mk(['SD', 'TT+MT'], [['sl'], ['sl', 'it']], unique=False, T=T))
     out.append(mk(['SD', 'none', 'MT'], [['sl'], [], ALL], unique=False, T=T))
     out.append(mk(['SD', 'SD'], [ALL, []], pre_op='append-timed', unique=False, T=T))
+    out.append(mk(['SD', 'TT+MT'], [['sl'], ALL], pre_op='roreplace', T=T))
+    out.append(mk(['none', 'SD', 'MT'], [ALL, [], ['sl', 'in']], pre_op='roreplace', edstart='absent', T=T))
     # states reached by merges that insert / append / replace / send stories with or without timing
     for op in ('append-timed', 'append-untimed', 'insert-timed', 'insert-untimed', 'replace-timed',
                'replace-untimed', 'send-timed', 'send-untimed', 'eainsert-untimed', 'eainsert-timed'):
